@@ -67,6 +67,28 @@ def already_names(li):
     return names_defined_by(li, lambda v: const(v) is False)
 
 
+def found_names(li):
+    """the same knowledge kept as a value: a local that holds the already-configured service or None (existing = None ... existing = hs)"""
+    defs = local_defs(li)
+    out = []
+    for nm, ds in defs.items():
+        vals = [d[1] for d in ds if len(d) > 1 and isinstance(d[1], ast.AST)]
+        if vals and any(is_none(v) or dotted(v) == 'self.hiddenservice' for v in vals) and \
+                all(is_none(v) or isinstance(v, ast.Name) or dotted(v) == 'self.hiddenservice' for v in vals) and \
+                any(isinstance(t, ast.Compare) and dotted(t.left) == nm and is_none(t.comparators[0]) for t in walk_unit(li)):
+            out.append(nm)
+    return out
+
+
+def is_already_test(li, t):
+    """(matches, label of the edge on which the service IS already configured) for a test atom"""
+    if dotted(t) in already_names(li):
+        return True, 'T'
+    if isinstance(t, ast.Compare) and len(t.ops) == 1 and dotted(t.left) in found_names(li) and is_none(t.comparators[0]):
+        return True, ('F' if isinstance(t.ops[0], (ast.Is, ast.Eq)) else 'T')
+    return False, None
+
+
 def r17_2(run):
     li = LU(run)
     g = cfg_of(li)
@@ -105,8 +127,9 @@ def r17_2(run):
                     return eph
                 if isinstance(a, ast.Compare) and dotted(a.left) == 'self.auth' and is_none(a.comparators[0]):
                     return auth if isinstance(a.ops[0], ast.IsNot) else (not auth)
-                if dotted(a) in already_names(li):
-                    return False
+                m_, lab_ = is_already_test(li, a)
+                if m_:
+                    return lab_ != 'T'        # "not already configured"
                 return None
             want = ('Ephemeral' if eph else 'Filesystem') + ('Authenticated' if auth else '') + 'OnionService.create'
             hit = set()
@@ -246,19 +269,30 @@ def r17_4(run):
         run.ob('R17.4', li, rn.ast, 'listen resolves to a port object wrapping the bound port, the public port and the service', ok, slot='return-value',
                message='listen returns %s' % src(v)[:80])
         # not before the service exists: every path to the return passes the wait on creation or the already-configured leg
-        already = [(t.id, 'T') for t in g.live if t.kind == 'test' and dotted(t.ast) in already_names(li)]
+        already = [(t.id, is_already_test(li, t.ast)[1]) for t in g.live if t.kind == 'test' and is_already_test(li, t.ast)[0]]
         r = g.reachable([g.entry], avoid=lambda n: n in waitn, skip_edges=set(already))
         run.ob('R17.4', li, rn.ast, 'listen resolves only after the service creation (and its descriptor wait) is over', rn not in r, slot='return-after-create',
                message='listen can return before "yield create_d" on a path where the service was not already configured')
     # the already-configured leg adopts the configured service whose directory is this endpoint's (and no other one)
     adopt = [n for n in g.real_nodes() if n.kind == 'stmt' and isinstance(n.ast, ast.Assign) and assign_to(n.ast, 'self.hiddenservice') is not None and
-             isinstance(n.ast.value, ast.Name) and any(lab == 'T' for t, lab in g.guarded_by(n, lambda t: dotted(t) in already_names(li)))]
+             isinstance(n.ast.value, ast.Name) and any(lab == is_already_test(li, t.ast)[1] for t, lab in g.guarded_by(n, lambda t: is_already_test(li, t)[0]))]
+    # (when the found service is carried in a local - existing = hs inside the search loop - the search assignment is what adopts)
+    fn_ = found_names(li)
+    if fn_:
+        adopt = [n for n in g.real_nodes() if n.kind == 'stmt' and isinstance(n.ast, ast.Assign) and any(t in fn_ for t in assigned_targets(n.ast)) and
+                 isinstance(n.ast.value, ast.Name) and n.ast.value.id not in fn_]
     for n in adopt:
         hs = n.ast.value.id
         gd = g.guarded_by(n, lambda t: isinstance(t, ast.Compare) and len(t.ops) == 1 and isinstance(t.ops[0], (ast.Eq, ast.NotEq)))
         ok = False
+        ldefs_ = local_defs(li)
+
+        def side_text(e):
+            if isinstance(e, ast.Name) and single_def(ldefs_, e.id) and single_def(ldefs_, e.id)[0] == 'expr':
+                return src(single_def(ldefs_, e.id)[1])
+            return src(e)
         for t, lab in gd:
-            sides = [src(t.ast.left), src(t.ast.comparators[0])]
+            sides = [side_text(t.ast.left), side_text(t.ast.comparators[0])]
             mine = [x for x in sides if 'self.hidden_service_dir' in x]
             theirs = [x for x in sides if x not in mine and hs in [y.id for y in ast.walk(ast.parse(x)) if isinstance(y, ast.Name)] and 'dir' in x]
             if mine and theirs and (lab == 'T') == isinstance(t.ast.ops[0], ast.Eq):
@@ -314,6 +348,9 @@ def late_definitions(run, rid, unit, g, raises, floor):
                                  for t2 in g.live if t2.kind == 'test' and t2 is not t for lab in ('T', 'F'))
                     # clearing a consumed argument / folding a flag into a bool is not a recomputation
                     trivial = is_none(n.ast.value) or isinstance(const(n.ast.value), bool)
+                    # an assignment that sits on one of the test's own legs is the normalisation the test selects
+                    # (if x is None: x = default else: ... x = table[flag]), not a value the test failed to see
+                    shared = shared or g.edge_dominates(t, 'T', n) or g.edge_dominates(t, 'F', n)
                     if hit and not trivial and not shared:
                         run.ob(rid, unit, n.ast, 'an option is not recomputed after the test that validates it', False, slot='late-definition:%s@%s' % (sorted(hit)[0], unit.name),
                                message='%s tests %s and only afterwards sets %s = %s: the refusal never sees that value, so the invalid combination is accepted '
